@@ -24,6 +24,12 @@ func (k Keeper) ClaimVesting(ctx sdk.Context, msg *types.MsgClaimVesting) (*type
 	var updatedVestingTokens []*types.VestingTokens
 	for _, vesting := range commitments.VestingTokens {
 		vestedSoFar := vesting.VestedSoFar(ctx)                         // tokens unlocked
+		if vestedSoFar.LT(vesting.ClaimedAmount) {
+			// a partial cancel lowered the total below the pro-rata point already claimed:
+			// nothing is due yet, keep the entry untouched
+			updatedVestingTokens = append(updatedVestingTokens, vesting)
+			continue
+		}
 		newClaim := vestedSoFar.Sub(vesting.ClaimedAmount)              // tokens to mint or transfer
 		newClaims = newClaims.Add(sdk.NewCoin(vesting.Denom, newClaim)) // adding coin to mint or transfer
 		vesting.ClaimedAmount = vestedSoFar                             // updating claimed amount
